@@ -305,6 +305,7 @@ def run_test_harness(ctx, exe, test, lines, timeout=1800, tag="x", env=None):
         ctx.broken.append(("correspondence", "harness %s timed out" % test, ""))
         return None
     out = open(outp).read().splitlines() if os.path.exists(outp) else []
+    ctx.harness_log = p.stdout
     if p.returncode != 0 or len(out) != len(lines):
         ctx.broken.append(("correspondence", "harness %s failed (rc=%d, %d/%d lines)" % (test, p.returncode, len(out), len(lines)),
                            p.stdout[-3000:]))
